@@ -48,7 +48,8 @@ RULE = (
     "container) x 6 container values x 4 ways of reaching it x sync/async x autoescape; filter table: "
     "every built-in filter x 12 container values x (no argument, each positional slot and each keyword parameter of "
     "its signature set to each of 10 context-held values, required parameters filled) x {print, list, loop} "
-    "consumption x sync/async x autoescape off/on; plus "
+    "consumption x sync/async x autoescape off/on (x default / non-default environment policies for the filters whose "
+    "source consults policies); plus "
     "Hypothesis-drawn containers (nested, deque maxlen), methods, arguments, routes and filter argument combinations. "
     "Non-trivial = (method) the same call performed in plain Python on a copy changes the container or an argument; "
     "(filter) the filter ran to completion on container data; distinct = distinct case."
@@ -279,12 +280,30 @@ def _excs():
     return _cache
 
 
-def _env(is_async, autoescape=False, kind="immutable"):
+# non-default values for the environment policies (docs/api.rst "Policies"): every policy that is unset by default gets
+# a plausible value
+POLICIES_SET = {
+    "urlize.rel": "nofollow me",
+    "urlize.target": "_blank",
+    "urlize.extra_schemes": ["ftp:", "x-test:"],
+    "truncate.leeway": 0,
+    "json.dumps_kwargs": {"sort_keys": False, "indent": 1},
+    "compiler.ascii_str": False,
+    "ext.i18n.trimmed": True,
+}
+
+
+def _env(is_async, autoescape=False, kind="immutable", policies=None):
     import jinja2
     from jinja2.sandbox import ImmutableSandboxedEnvironment, SandboxedEnvironment
 
     cls = {"immutable": ImmutableSandboxedEnvironment, "sandbox": SandboxedEnvironment, "plain": jinja2.Environment}[kind]
-    return cls(enable_async=is_async, autoescape=autoescape, extensions=["jinja2.ext.do"], cache_size=0)
+    env = cls(enable_async=is_async, autoescape=autoescape, extensions=["jinja2.ext.do"], cache_size=0)
+    if policies:
+        import copy
+
+        env.policies.update(copy.deepcopy(policies))
+    return env
 
 
 def _history(case, src, make_ctx):
@@ -469,6 +488,27 @@ def filter_table():
     return _filters
 
 
+_policy_filters = {}
+
+
+def policy_filters():
+    """Names of the built-in filters whose source consults environment policies (found by reading their source, so a
+    filter that starts to use a policy is picked up)."""
+    if not _policy_filters:
+        import jinja2
+
+        env = jinja2.Environment()
+        for name, f in env.filters.items():
+            srcs = []
+            for fn in (f, getattr(f, "__wrapped__", None), getattr(f, "jinja_async_variant", None)):
+                try:
+                    srcs.append(inspect.getsource(fn))
+                except (TypeError, OSError):
+                    pass
+            _policy_filters[name] = any("policies" in t for t in srcs)
+    return {n for n, v in _policy_filters.items() if v}
+
+
 def filter_src(case):
     parts = ["a%d" % i for i in range(len(case["args"]))] + ["%s=kw_%s" % (k, k) for k in sorted(case["kwargs"])]
     e = "v|%s(%s)" % (case["filter"], ", ".join(parts)) if parts else "v|%s" % case["filter"]
@@ -491,7 +531,7 @@ def check_filter(case):
     ctx, snap = _filter_ctx(case), _filter_ctx(case)
     src = filter_src(case)
     _history(case, src, lambda: _filter_ctx(case))
-    env = _env(case["async"], case.get("autoescape", False))
+    env = _env(case["async"], case.get("autoescape", False), policies=case.get("policies"))
     ordinary = (X["TemplateError"], TypeError, ValueError, LookupError, AttributeError, ArithmeticError, AssertionError)
     err = None
     try:
@@ -506,6 +546,8 @@ def check_filter(case):
             d, "output" if err is None else type(err).__name__, where))
     labels = ["filter", "async" if case["async"] else "sync", "f_" + case["filter"], "consume_" + case["consume"],
               "filter_ok" if err is None else "filter_raised", "autoescape_on" if case.get("autoescape") else "autoescape_off"]
+    if case.get("policies"):
+        labels.append("policies_set")
     return core.Outcome(err is None, labels)
 
 
@@ -531,13 +573,18 @@ def filter_cases():
         for f in FILLERS:
             if required:
                 variations.append(([f] * required, {}))
+        pol_variants = (None, POLICIES_SET) if name in policy_filters() else (None,)
         for vk in sorted(VALUES):
             for args, kwargs in variations:
                 for ck in ("print", "list", "loop"):
                     for is_async in (False, True):
                         for autoescape in (False, True):
-                            yield {"kind": "filter", "async": is_async, "autoescape": autoescape, "filter": name, "value": VALUES[vk],
-                                   "args": args, "kwargs": kwargs, "consume": ck}
+                            for pol in pol_variants:
+                                case = {"kind": "filter", "async": is_async, "autoescape": autoescape, "filter": name, "value": VALUES[vk],
+                                        "args": args, "kwargs": kwargs, "consume": ck}
+                                if pol:
+                                    case["policies"] = pol
+                                yield case
 
 
 def hash_name(name):
@@ -778,6 +825,8 @@ def random_filter_case(draw):
             "args": args, "kwargs": kwargs, "consume": draw(st.sampled_from(sorted(CONSUME)))}
     if draw(st.integers(0, 5)) == 0:
         case["pre"] = draw(st.lists(st.sampled_from(["sandbox", "plain", "immutable"]), min_size=1, max_size=2))
+    if draw(st.integers(0, 3)) == 0:
+        case["policies"] = POLICIES_SET
     return case
 
 
